@@ -538,6 +538,11 @@ func c12CatalogueAll() []*c12Call {
 	add("P", "P40", `Sprintf("%v %s", Safe(e1), Unsafe(cerr))`, func(e *c12Env) RedactableString {
 		return Sprintf("%v %s", Safe(e.e1), Unsafe(e.cerr))
 	})
+	// the EXTRA report depends on a flag (reordered) that only the format loop resets: directive-less formats and
+	// formats whose directives all come before the left-over operands, after histories that used argument indexes
+	add("P", "P45", `Sprintf("done", 1, "x")`, func(e *c12Env) RedactableString { return Sprintf("done", 1, "x") })
+	add("P", "P46", `Sprintf("n=%d", 1, 2)`, func(e *c12Env) RedactableString { return Sprintf("n=%d", 1, 2) })
+	add("P", "P47", `Sprintf("", "x")`, func(e *c12Env) RedactableString { return Sprintf("", "x") })
 	add("P", "P41", `Sprintf("%*d|%-*d|%.*f|%[3]*.[2]*[1]f", 5, 1, 4, 2, 2, 3.14159)`, func(e *c12Env) RedactableString {
 		return Sprintf("%*d|%-*d|%.*f|%[3]*.[2]*[1]f", 5, 1, 4, 2, 2, 3.14159)
 	})
